@@ -3,6 +3,8 @@ import HpxVerif.Props.C15
 import HpxVerif.Lemmas.ConeReal
 import HpxVerif.Props.C16
 
+set_option autoImplicit false   -- an unknown identifier in a statement is an error, never a new variable
+
 /-!
 # C06 — cone coverage flags are truthful and the coverage is tight
 
